@@ -341,6 +341,11 @@ class CallMixin:
       n = s.len(t)
       self.store_back(bm.lval, V(s, s.mk(z3.Store(s.arr(t), n, x.t), n + 1)))
       return NONE
+    if name == 'pop' and not args:
+      n = s.len(t)
+      self.oblige_or_raise(n > 0, 'IndexError', 'pop from non-empty list', node)
+      self.store_back(bm.lval, V(s, s.mk(s.arr(t), n - 1)))
+      return V(s.elem, s.at(t, n - 1))
     if name == 'index':
       x = self.coerce(args[0], s.elem)
       self.oblige(s.contains(t, x.t), 'safety', 'list.index of present element')
